@@ -171,7 +171,7 @@ CLAIMED = {
         text="Machine-checked (Coq 8.16), all texts (lists of code points of any length) and all integer "
              "positions, over Gen/text.v (left, right, mid, replace, find, exact, upper, lower, len_, concatenate "
              "re-translated from /repo/src/pycel/lib/text.py on every run) wrapped by Model/Text.v's model of "
-             "strs_wrapper/nums_wrapper/error_string_wrapper. ALL FULL (21 theorems, closed under the global "
+             "strs_wrapper/nums_wrapper/error_string_wrapper. FULL (29 theorems in all, closed under the global "
              "context): C20_left_chars, C20_mid_chars, C20_partition (LEFT(s,n)&MID(s,n+1,LEN s)=s), C20_right "
              "(last min(k,LEN) characters), C20_right_fraction (count in [0,1) gives the empty text), C20_replace "
              "(=LEFT&t&MID), C20_negative_counts (#VALUE!), C20_number_rendering (z and z.0 are the digits of z, "
@@ -182,16 +182,37 @@ CLAIMED = {
              "non-empty pattern), C20_substitute_nth (instance i >= 1: exactly the i-th non-overlapping "
              "occurrence), C20_concatenate, C20_exact, C20_trim (single inner spaces, no space at either end, "
              "other characters untouched, idempotent), C20_upper/lower_idempotent (where the case mapping is "
-             "modelled: ASCII, Latin-1, CJK, pictographs) and C20_upper/lower_ascii (total on ASCII). REFUTED "
-             "(advisory witness, known finding C20-text-half-even): Refuted/C20_text_rounding.v, "
-             "TEXT(2.5,\"0\")=\"2\", TEXT(0.125,\"0.00\")=\"0.12\". CORRESPONDENCE-ONLY (no theorem): CONCAT "
-             "and TEXT(x,f) for one-section formats over 0 # , . % (Model/TextFormat.v transcribes "
-             "_tokenize_format/_number_converter/_number_token_converter with round-half-even of the exact "
-             "value). Every quick run compares the extracted model with the real functions called through "
+             "modelled: ASCII, Latin-1, CJK, pictographs) and C20_upper/lower_ascii (total on ASCII). TEXT(x,f), over the hand "
+             "transcription Model/TextFormat.v (tokenizer, _number_converter, _number_token_converter; format()/"
+             "round() = round-half-even of the exact value), for ALL rationals x and ALL formats of the grammar "
+             "int ['.' frac] '%'* (int over 0 # , with every ',' directly after a placeholder, possibly empty "
+             "before a '.'; frac over 0 #; any number of trailing '%'; Proofs/C20TextSpec.v: record tfmt, "
+             "fmt_ok, fmt_string, decidable test parse_fmt; excluded: literal/quoted text, a ',' at the start or "
+             "after ',' or after the '.', a second '.', '%' before the end, sections, '?', dates), against the "
+             "declarative text_spec rnd x F (sign, one 0 per '0' placeholder left of the digits, digits of "
+             "N div 10^d with N = rnd(|x|*100^k*10^d), a ',' before every third digit from the right when a ',' "
+             "is followed by a placeholder, '.', the d digits of N mod 10^d without trailing zeros then one 0 "
+             "per '0' placeholder to their right, k '%'): FULL C20_text_halfeven (every x, ties included: "
+             "text_fmt and X_text on float and int arguments = text_spec half_even: what the implementation "
+             "does), FULL ON ITS DOMAIN C20_text_nontie (x not a rounding tie of |x|*100^k*10^d: = text_spec "
+             "half_away, the property's clause), FULL C20_text_integer (every integer x: the clause, integers "
+             "are never ties), C20_text_parsed (both statements for any text accepted by parse_fmt, with "
+             "parse_fmt sound), C20_text_modes (half_away q = floor(q+1/2); the modes agree off the ties and on "
+             "a tie differ exactly when the floor is even), digit level C20_text_digits (str_of_Z n is the "
+             "base-ten numeral of n without leading zero), C20_text_fraction (the d-digit fraction and its "
+             "dropped zeros), C20_text_grouping (the two equations and comma-erasure of group3). The clause as "
+             "stated (half away on ties) is REFUTED by the model (advisory witness, known finding "
+             "C20-text-half-even): Refuted/C20_text_rounding.v, TEXT(2.5,\"0\")=\"2\", "
+             "TEXT(0.125,\"0.00\")=\"0.12\"; Example ex_tie exhibits both renderings. NOT CLAIMED: Excel's "
+             "grouping of the padding zeros (text_spec and pycel give TEXT(5,\"0,000\")=\"0005\") and "
+             "scaling commas (TEXT(12345,\"0,\")=\"12345\"): counted by the harness as candidate findings. "
+             "CORRESPONDENCE-ONLY (no theorem): CONCAT, and TEXT outside the grammar above. Every quick run compares the extracted model with the real functions called through "
              "apply_meta on ~450k calls (all strings up to length 4 over a 5-symbol alphabet with a space, a "
              "2-byte and a 4-byte character x all n,k in -1..10; fractional counts/starts; numbers/booleans/"
-             "blanks/errors in every position; ~45k TEXT calls) and evaluates the property's identities on the "
-             "implementation. Known findings: C20-text-half-even, C20-text-double-dot-keyerror.",
+             "blanks/errors in every position; ~50k TEXT calls incl. formats drawn from the grammar) and evaluates the property's identities on the "
+             "implementation; oracle stream for the TEXT theorems: a Python re-implementation of text_spec = "
+             "the extracted Coq text_spec (both modes, tie flag, grammar membership) on every generated (x,f), "
+             "and pycel = text_spec(half away) of the written decimal on every non-tie (~40k per quick run). Known findings: C20-text-half-even, C20-text-double-dot-keyerror.",
         design_ref="DESIGN.md 5 C20",
     ),
     'C14': dict(
